@@ -581,20 +581,25 @@ type SolveResult struct {
 }
 
 type solverCfg struct {
-	name string
-	cmd  []string
+	name    string
+	cmd     []string
+	timeout int
 }
 
 func solverConfigs(mode string, timeout int, thorough bool) []solverCfg {
 	t := fmt.Sprint(timeout)
 	cfgs := []solverCfg{
-		{"z3-new", []string{"z3-new", "-T:" + t}},
-		{"z3", []string{"z3", "-T:" + t}},
-		{"z3-new/nomb", []string{"z3-new", "-T:" + t, "smt.mbqi=false"}},
-		{"z3/pnq", []string{"z3", "-T:" + t, "smt.pull_nested_quantifiers=true"}},
+		{name: "z3-new", cmd: []string{"z3-new", "-T:" + t}},
+		{name: "z3", cmd: []string{"z3", "-T:" + t}},
+		{name: "z3-new/nomb", cmd: []string{"z3-new", "-T:" + t, "smt.mbqi=false"}},
+		{name: "z3/pnq", cmd: []string{"z3", "-T:" + t, "smt.pull_nested_quantifiers=true"}},
+		{name: "z3-new/pnq", cmd: []string{"z3-new", "-T:" + t, "smt.pull_nested_quantifiers=true", "smt.mbqi=false"}},
 	}
 	if mode == "str" || thorough {
-		cfgs = append(cfgs, solverCfg{"cvc5", []string{"cvc5", "--tlimit=" + fmt.Sprint(timeout*1000), "--strings-exp", "--produce-models"}})
+		cfgs = append(cfgs, solverCfg{name: "cvc5", cmd: []string{"cvc5", "--tlimit=" + fmt.Sprint(timeout*1000), "--strings-exp", "--produce-models"}})
+	}
+	for i := range cfgs {
+		cfgs[i].timeout = timeout
 	}
 	return cfgs
 }
@@ -619,9 +624,20 @@ func cleanupWorkDir() {
 	}
 }
 
+// at most this many solver processes run at the same time (the machine has 16 cores)
+var solverSem = make(chan struct{}, 16)
+
 func runSolver(ctx context.Context, cfg solverCfg, file string) (string, string, float64) {
+	select {
+	case solverSem <- struct{}{}:
+	case <-ctx.Done():
+		return "timeout", "", 0
+	}
+	defer func() { <-solverSem }()
 	start := time.Now()
-	cmd := exec.CommandContext(ctx, cfg.cmd[0], append(cfg.cmd[1:], file)...)
+	pctx, pcancel := context.WithTimeout(ctx, time.Duration(cfg.timeout+2)*time.Second)
+	defer pcancel()
+	cmd := exec.CommandContext(pctx, cfg.cmd[0], append(cfg.cmd[1:], file)...)
 	var out bytes.Buffer
 	cmd.Stdout = &out
 	cmd.Stderr = &out
@@ -643,7 +659,7 @@ func runSolver(ctx context.Context, cfg solverCfg, file string) (string, string,
 	case "timeout":
 		return "timeout", text, el
 	}
-	if ctx.Err() != nil {
+	if pctx.Err() != nil {
 		return "timeout", text, el
 	}
 	if strings.Contains(text, "timeout") {
@@ -687,7 +703,7 @@ func solveWith(query string, mode string, timeout int, thorough bool, expectSat 
 			cfgs = cfgs[:2]
 		}
 	}
-	ctx, cancel := context.WithTimeout(context.Background(), time.Duration(timeout+2)*time.Second)
+	ctx, cancel := context.WithCancel(context.Background())
 	defer cancel()
 	type res struct {
 		cfg    solverCfg
